@@ -410,6 +410,9 @@ impl PtraceDumper {
                 }
             };
 
+            #[cfg(feature = "verif-hooks")]
+            crate::verif_hooks::fire(crate::verif_hooks::Point::ThreadEnumerated(tid));
+
             // Read the thread-name (if there is any)
             let name_result = failspot!(if ThreadName {
                 Err(std::io::Error::other(
